@@ -137,6 +137,7 @@ type Path struct {
 	logArgs      []Value
 	tag          string
 	verified     []*verifiedSig
+	fnStack      []*ssa.Function
 	decodes      []*decodeAttempt
 }
 
